@@ -119,7 +119,7 @@ func main() {
 		p.Thorough = true
 	}
 	r := core.NewReport(prop)
-	def.Run(p, r)
+	props.RunFull(prop, p, r)
 
 	if only != nil {
 		found := false
@@ -164,7 +164,7 @@ func main() {
 
 	wall := time.Since(t0).Seconds()
 	if !*noEvidence {
-		if err := r.WriteEvidence(evPath, tier, seed, wall, p, def.Explanation, def.NotCovered, def.Assumptions, extra); err != nil {
+		if err := r.WriteEvidence(evPath, tier, seed, wall, p, def.Explanation+includesNote(prop), def.NotCovered, def.Assumptions, extra); err != nil {
 			fmt.Printf("UNDECIDED evidence — %v\n", err)
 			os.Exit(2)
 		}
@@ -203,7 +203,7 @@ func writeManifest(verif string) {
 			PropertyID: id, QuickCmd: "bin/check " + id + " quick", ThoroughCmd: "bin/check " + id + " thorough",
 			EvidenceFile: "/verif/evidence/" + id + ".json", ReplayCmd: "bin/sscheck -replay {path}", Engine: "sscheck",
 			Level: map[string]interface{}{"category": "other", "design_ref": ref,
-				"text": "Static analysis of /repo's current source (no execution): decides structural clauses that are necessary conditions of the property, on every path / for every input of the functions inspected. " + d.Explanation + " NOT decided: " + d.NotCovered},
+				"text": "Static analysis of /repo's current source (no execution): decides structural clauses that are necessary conditions of the property, on every path / for every input of the functions inspected. " + d.Explanation + includesNote(id) + " NOT decided: " + d.NotCovered},
 			LevelNote: "Trusted: go/types, go/ssa, VTA call graph (x/tools v0.29.0), generated protobuf code, external packages. " + strings.Join(d.Assumptions, "; "),
 			Technique: d.Technique,
 		})
@@ -259,7 +259,7 @@ func describeAll(repo string) {
 		r := core.NewReport(id)
 		d.Run(p, r)
 		fmt.Printf("### %s — %s\n\n", id, d.Title)
-		fmt.Printf("*Technique*: %s\n\n*Decides*: %s\n\n*Does not decide*: %s\n\n", d.Technique, d.Explanation, d.NotCovered)
+		fmt.Printf("*Technique*: %s\n\n*Decides*: %s%s\n\n*Does not decide*: %s\n\n", d.Technique, d.Explanation, includesNote(id), d.NotCovered)
 		type agg struct {
 			n     int
 			descs []string
@@ -298,4 +298,13 @@ func describeAll(repo string) {
 		}
 		fmt.Println()
 	}
+}
+
+// includesNote: sentence appended to a property's explanation when it also evaluates other properties' rule sets.
+func includesNote(id string) string {
+	inc := props.IncludedClosure(id)
+	if len(inc) == 0 {
+		return ""
+	}
+	return " The check also evaluates, as rule " + id + ".I, the rule sets of the mechanisms this property rests on: " + strings.Join(inc, ", ") + " (a change that breaks one of them breaks this property too)."
 }
